@@ -701,11 +701,8 @@ func shapeOf(in Input) string {
 // trigger condition of one of the two known defects names the case (two more, belongs-to
 // Unscoped Delete / Clear, were fixed in /repo: d23ce2a, 75c7076; their inputs are ordinary now).
 func sig(in Input) string {
-	// one *Association reused: the harness reads (Count, Find) before the first and after every
-	// operation, so every such history has a write after a read through the same handle
-	if in.SameHandle && len(in.Ops) > 0 {
-		return "association-handle-reuse"
-	}
+	// (a kept and reused *Association handle was a finding until /repo 0e58756; same-handle
+	// histories are ordinary inputs now)
 	return sigOther(in)
 }
 
